@@ -13,7 +13,11 @@ Init == l = 1 /\ out = {}
 SeqToSet(s) == {s[i] : i \in 1..Len(s)}
 Judge(t) ==
   LET unsaved == SeqToSet(t.seen) \ SeqToSet(t.saved)
-      v1 == {[kind |-> "line_lost", id |-> x, info |-> IF t.killed /\ unsaved # {} THEN "unsaved_stream_at_kill" ELSE "all_seen_streams_saved",
+      \* D3 loses lines that lie BEFORE the point where the restarted reader starts (the smallest saved offset).  A lost line known to
+      \* end beyond that point was read again after the restart and still not delivered: another matter.
+      beyond == IF "beyond" \in DOMAIN t THEN SeqToSet(t.beyond) ELSE {}
+      v1 == {[kind |-> "line_lost", id |-> x, info |-> IF t.killed /\ unsaved # {} /\ x \notin beyond THEN "unsaved_stream_at_kill"
+                                                       ELSE IF x \in beyond THEN "read_again_after_restart" ELSE "all_seen_streams_saved",
               truncate |-> t.truncate] : x \in SeqToSet(t.lost)}
       v2 == IF t.died THEN {[kind |-> "child_died", id |-> 0, info |-> t.exit, truncate |-> t.truncate]} ELSE {}
   IN v1 \cup v2
